@@ -211,6 +211,8 @@ def run_check(mod, tier, seed, budget=None, selftest=False):
                 known_total.update(kh)
             for k2, v in out.get('coverage', {}).items():
                 cov.setdefault(k2, v)
+    from vt import clock as _clock
+    _clock.uninstall()          # subprocess' timeout handling polls with time.sleep: it must be the real one here
     if conf is not None:
         try:
             out, err = conf.communicate(timeout=600)
